@@ -158,7 +158,11 @@ func (u *parseUnit) ptoks(names []string) []subj.PTok {
 		if n == "INVALID" {
 			out[i] = subj.PTok{Type: 0, Lit: "?"}
 		} else {
-			out[i] = subj.PTok{Type: u.ps.Type(n), Lit: n}
+			lit := n
+			if (i+len(names))%4 == 1 {
+				lit = n + ":" + strings.Repeat("abcdefghij", 4) // a long literal
+			}
+			out[i] = subj.PTok{Type: u.ps.Type(n), Lit: lit}
 		}
 	}
 	return out
@@ -199,6 +203,9 @@ func drawAimed(rt *rapid.T, us []*parseUnit, max, nMut, sentenceBias int) ParseC
 func sane(u *parseUnit, c ParseCase, o subj.ParseObs) string {
 	if o.Panic != "" {
 		return fmt.Sprintf("grammar:\n%s\ninput %v: Parse panicked: %s", u.src, c.Toks, firstLines(o.Panic, 12))
+	}
+	if o.TokenModified >= 0 {
+		return fmt.Sprintf("grammar:\n%s\ninput %v: the literal of token #%d, an object owned by the scanner, was modified by Parse or by rendering its error", u.src, c.Toks, o.TokenModified)
 	}
 	if o.Guard {
 		return fmt.Sprintf("grammar:\n%s\ninput %v: Parse does not terminate (step guard: %d Scan calls, %d action calls for %d tokens)", u.src, c.Toks, o.ScanCalls, len(o.Log), len(c.Toks))
@@ -778,6 +785,30 @@ func firstTok(v subj.Val) int {
 	return -1
 }
 
+// obsText is the readable counterpart of obsKey for messages.
+func obsText(o subj.ParseObs) string {
+	var lb strings.Builder
+	for i, c := range o.Log {
+		if i >= 12 {
+			fmt.Fprintf(&lb, "… (%d calls)", len(o.Log))
+			break
+		}
+		lb.WriteString(c.Tag + "(")
+		for j, a := range c.Args {
+			if j > 0 {
+				lb.WriteString(",")
+			}
+			lb.WriteString(a.Short(5))
+		}
+		lb.WriteString(") ")
+	}
+	e := "nil"
+	if o.Err != nil {
+		e = fmt.Sprintf("tok#%d type%d injected=%v expected=%q", o.Err.ErrTok, o.Err.ErrTokType, o.Err.IsInjected, o.Err.Expected)
+	}
+	return fmt.Sprintf("err==nil:%v err={%s} %s result=%s calls=%s scans=%d token_modified=%d", o.ErrNil, e, o.ErrOther, o.Result.Short(5), lb.String(), o.ScanCalls, o.TokenModified)
+}
+
 func obsKey(o subj.ParseObs) string {
 	e := "nil"
 	if o.Err != nil {
@@ -791,11 +822,11 @@ func obsKey(o subj.ParseObs) string {
 			if i > 0 {
 				lb.WriteString(",")
 			}
-			lb.WriteString(a.DeepString())
+			lb.WriteString(a.Digest())
 		}
 		lb.WriteString(") ")
 	}
-	return fmt.Sprintf("errnil=%v err={%s} other=%q result=%s log=%s scans=%d panic=%v guard=%v", o.ErrNil, e, o.ErrOther, o.Result.DeepString(), lb.String(), o.ScanCalls, o.Panic != "", o.Guard)
+	return fmt.Sprintf("errnil=%v err={%s} other=%q result=%s log=%s scans=%d panic=%v guard=%v tokmod=%d", o.ErrNil, e, o.ErrOther, o.Result.Digest(), lb.String(), o.ScanCalls, o.Panic != "", o.Guard, o.TokenModified)
 }
 
 func evalC16P(r *runner, u *parseUnit, c ParseCase) string {
@@ -818,7 +849,7 @@ func evalC16P(r *runner, u *parseUnit, c ParseCase) string {
 				hist = append(hist, fmt.Sprint(h.Toks))
 			}
 			return fmt.Sprintf("grammar:\n%s\nafter parsing %v with one Parser object, input %v (fail_at %d) gives\n  %s\n  %q\na fresh parser gives\n  %s\n  %q",
-				u.src, hist, st.Toks, st.FailAt, obsKey(used), used.ErrString, obsKey(fresh), fresh.ErrString)
+				u.src, hist, st.Toks, st.FailAt, obsText(used), used.ErrString, obsText(fresh), fresh.ErrString)
 		}
 		if prevBad {
 			interesting = true
